@@ -64,7 +64,7 @@ def run_impl_parallel(modname, eng, cases):
   n = len(cases)
   if n == 0:
     return []
-  w = C.NCPU if n >= 32 else 1
+  w = C.NCPU if n >= 32 else (min(n, C.NCPU) if getattr(eng, 'parallel_small', False) else 1)
   chunks = [cases[i::w] for i in range(w)]
   res = C.parallel_map(_impl_worker, [(modname, eng.name, ch) for ch in chunks], workers=w)
   outs = [None] * n
